@@ -136,14 +136,14 @@ claimed = {
         "over cSHAKE128('KMAC',S) and rejects short keys / negative sizes; ComputeHash is proved to be cSHAKE-read(initBlock || x || right_encode(8L)) on a clone "
         "(the shared state is untouched), SumHash/Reset likewise, over an assumed contract of x/crypto cSHAKE; the Keccak sponge's xorIn/copyOut are proved "
         "lane-exact (little-endian), and the buffer logic (nil sentinel, fill level == (old+len) mod rate, buffer never left full, Reset clears all 25 lanes, padding positions in range) "
-        "holds for every length and every buffer state. NOT decided by this check (stated in evidence): that the absorbed state equals the FIPS 202 sponge function of the message (only the buffer/lanes bookkeeping is), SHA-2 wrappers, keccakF1600.",
+        "holds for every length and every buffer state. NOT decided by this check (stated in evidence): that the absorbed state equals the FIPS 202 sponge function of the message (only the buffer/lanes bookkeeping is), keccakF1600. SHA-2 wrappers (sha2.go): ComputeHash returns the digest of exactly `data` whatever was written before (Reset, one Write of the whole input, Sum on a nil prefix), SumHash the digest of what was written, sizes 32/48, over an assumed streaming contract of crypto/sha256 and crypto/sha512 (ghost: kind, absorbed string).",
    note=TRUSTED + " keccakF1600 (assembly or Go) and x/crypto cSHAKE are assumed; in the default build xorIn/copyOut/asBytes use unsafe casts and are assumed to satisfy the contracts proved for their purego variants.",
    design="§5 C13"),
  "C10": dict(
    text="Typestate contracts for plain Feldman VSS and Feldman-VSS-Qual (every method and handler) and for Joint-Feldman (Start, NextTimeout, End, HandleBroadcastMsg, HandlePrivateMsg, ForceDisqualify): exact accept/reject table with the exact error class "
         "(errors.As classes tracked through fmt.Errorf %w), `nothing assigned` on every rejected call (all heaps, incl. the processor's ghost counters, unchanged for objects existing at entry), "
         "NextTimeout accepted exactly twice, End only after both timeouts and always leaving the instance not running, handlers never change the phase; proved as an induction over call histories via the representation invariants "
-        "(vssInv / qualInv incl. map-ownership of complaint objects). Joint-Feldman's looping methods: the typestate postconditions (refused while idle / while running / after the second timeout with nothing assigned; both timeouts advance every instance in lock step; Start leaves the joint instance running or, on a failed instance start, idle) are proved with the loop invariant `every instance still satisfies its representation invariant and the instances are pairwise separate` checked on loop entry and ASSUMED preserved across the call on instance i (the per-instance frame argument exceeds the solver budget; listed as an assumption); Start does not re-establish the joint invariant in its postcondition.",
+        "(vssInv / qualInv incl. map-ownership of complaint objects). Joint-Feldman's looping methods: the typestate postconditions (refused while idle / while running / after the second timeout with nothing assigned; both timeouts advance every instance in lock step; Start leaves the joint instance running or, on a failed instance start, idle) are proved with the loop invariant `every instance still satisfies its representation invariant and the instances are pairwise separate` checked on loop entry and ASSUMED preserved across the call on instance i (the per-instance frame argument exceeds the solver budget; listed as an assumption); Start does not re-establish the joint invariant in its postcondition. The constructor does: NewJointFeldman / init are proved to establish the joint invariant (every instance pristine, pairwise separate, sharing the one dkgCommon) with the exact argument validation; the public predicates IsDKGInvalidStateTransitionError / IsInvalidInputsError / IsDKGFailureError (and the other Is...Error functions) are proved to test exactly the error class the contracts speak about (errors.As / errors.Is semantics assumed).",
    note=TRUSTED + " Error-class facts of the typed error constructors are assumed (errors.As semantics). Joint-Feldman loops: preservation of the per-instance invariants across one iteration is assumed (entry is proved). C glue contracts are assumed at the cgo call sites.",
    design="§5 C10"),
  "C08": dict(
